@@ -35,8 +35,8 @@ CHECKS = {
          "Same executions as C01; panics are caught per call and logged as results, TraceAbs!Call rejects them and any failing free of a held block.", "5 C03"),
  "C05": ("fault_enumeration", "crash-point enumeration on the real code, recovered state checked by TLC against TraceAbs!Crash",
          "Before every write to the persistent metadata (and at the end) of random single-thread programs and enumerated concurrent schedules the lower buffer is snapshotted, recovered with Init::Recover into a fresh allocator and observed; TLC evaluates the crash-consistency predicate against its own history variables (held blocks, in-flight calls, abstract free set).", "5 C05"),
- "C21": ("model_checking", "solo-run enumeration on the real code, step counts validated by TLC against TraceAbs!SoloBound",
-         "At every scheduling point of base schedules every in-flight call is run alone (other threads frozen) until it returns; it must return normally within SoloBound(geometry) own steps.", "5 C21"),
+ "C21": ("model_checking", "solo-run enumeration on the real code, step counts validated by TLC against TraceAbs!SoloBound; plus TLC on the FINE model with a Freeze step (every reachable state x every in-flight thread)",
+         "At every scheduling point of base schedules every in-flight call is run alone (other threads frozen) until it returns; it must return normally within SoloBound(geometry) own steps. In addition TLC explores the FINE model LLFree.tla extended by a Freeze step (bin/freeze.py): from every reachable state of every interleaving of the scenario catalogue a thread run alone ends its call within a bound and without a panic; model counterexamples are replayed on the code.", "5 C21, 0.4"),
  "C12": ("model_checking", "trace validation of the compiled lower allocator against Abs (TraceSat!LGet/LPut)",
          "Lower::get(row hint, order) is called directly on structured and random allocation patterns; TLC rejects a failure while Abs!ExistsFreeBlock holds for the hinted tree and any success that is not exactly one aligned free block of that tree.", "5 C12"),
  "C16": ("model_checking", "exhaustive insertion sequences into the compiled SortedBuffer + random tree searches, validated by TLC against SortedBuf.tla",
